@@ -50,6 +50,9 @@ var replacements = map[string]string{
 	"(*os.File).Close": "M_FileClose",
 	"os.Remove":        "M_Remove",
 	"os.Rename":        "M_Rename",
+	// session tokens
+	"(*encoding/base64.Encoding).EncodeToString": "M_B64Encode",
+	"(*encoding/base64.Encoding).DecodeString":   "M_B64Decode",
 }
 
 // InstallModels wires the replacement table and model globals. It must be
@@ -74,4 +77,41 @@ func (m *Machine) InstallModels() {
 			}
 		}
 	}
+}
+
+// InstallHarnessModels lets a harness file replace functions of the package it
+// joins (the boundary to code that cannot be executed, e.g. SQL): a package-level
+// function VerifModel_f replaces function f, VerifModel__T__m replaces method
+// (*T).m of that package. The names of all replacements are reported.
+func (m *Machine) InstallHarnessModels(pkg *ssa.Package) []string {
+	var out []string
+	for name, mem := range pkg.Members {
+		fn, ok := mem.(*ssa.Function)
+		if !ok || len(name) <= len("VerifModel_") || name[:len("VerifModel_")] != "VerifModel_" {
+			continue
+		}
+		rest := name[len("VerifModel_"):]
+		path := pkg.Pkg.Path()
+		from := path + "." + rest
+		if len(rest) > 1 && rest[0] == '_' {
+			// _T__m
+			parts := splitOnce(rest[1:], "__")
+			if len(parts) == 2 {
+				from = "(*" + path + "." + parts[0] + ")." + parts[1]
+			}
+		}
+		m.repls[from] = path + "." + fn.Name()
+		out = append(out, from+" -> "+fn.Name())
+	}
+	m.fninfo = map[*ssa.Function]*fnInfo{}
+	return out
+}
+
+func splitOnce(s, sep string) []string {
+	for i := 0; i+len(sep) <= len(s); i++ {
+		if s[i:i+len(sep)] == sep {
+			return []string{s[:i], s[i+len(sep):]}
+		}
+	}
+	return []string{s}
 }
